@@ -60,10 +60,17 @@ func (q *Q) propActive(p string) bool {
 	if p == "assumed" {
 		return false // clause is assumed at call sites only, never checked
 	}
-	if q.curProp == "" {
-		return hasProp(q.props, p)
+	// "@C16,C08": active when checking any of the listed properties
+	for _, one := range strings.Split(p, ",") {
+		if q.curProp == "" {
+			if hasProp(q.props, one) {
+				return true
+			}
+		} else if q.curProp == one {
+			return true
+		}
 	}
-	return q.curProp == p
+	return false
 }
 
 func newQ(p *Prog, fnName string, bv bool) *Q {
